@@ -683,7 +683,9 @@ void c14_reparam(vf::Tape & t, vf::Ctx & ctx)
     worst_jump = std::max(worst_jump, fb - fa);
   }
   ctx.le("s non-decreasing", worst_dec / std::max(1.0, span), 1e-9);
-  ctx.le("s continuous (onto [t_min, t_max])", worst_jump / std::max(1e-300, span), 1e-6);
+  // a jump counts from a thousandth of a partition step span / N (the resolution of the scheme; the brake-clamp finding
+  // skips a whole step): 2.6e-6 of the span was observed on the unchanged tree without any shortcut being taken
+  ctx.le("s continuous (onto [t_min, t_max])", worst_jump / std::max(1e-300, span), 1e-3 / static_cast<double>(N));
 }
 
 struct Reg
